@@ -325,6 +325,101 @@ pub fn run(mut run: Run) -> i32 {
             check_seq(acc, idx, &pts, true);
         });
     }
+    // integer instantiation with large extent: a chord O-E of direction (a, b) (coprime, ~2^28) and points q_j whose cross product with the chord is exactly -3j
+    // (built from the Bezout pair of (a, b)), at different positions along the chord: the candidates' distances from the chord differ by a few units while the
+    // products are ~2^58, so any ranking done in 53-bit floating point cannot tell them apart; all products fit i64. i64 quick/graham, and graham<f64> (exact predicates)
+    {
+        let (a, b): (i64, i64) = (268435459, 200000033);
+        // Bezout: b*u - a*v = 1
+        fn egcd(x: i128, y: i128) -> (i128, i128, i128) { if y == 0 { (x, 1, 0) } else { let (g, s, t) = egcd(y, x % y); (g, t, s - (x / y) * t) } }
+        let (g, s0, t0) = egcd(b as i128, a as i128);
+        assert!(g == 1);
+        let (u, v) = ((s0.rem_euclid(a as i128)) as i64, 0i64);
+        let v = { let _ = (t0, v); ((b as i128 * u as i128 - 1) / a as i128) as i64 };
+        assert!(b as i128 * u as i128 - a as i128 * v as i128 == 1);
+        let orders: Vec<[usize; 5]> = vec![[0, 1, 2, 3, 4], [4, 3, 2, 1, 0], [2, 0, 3, 1, 4], [3, 2, 4, 0, 1], [1, 4, 0, 2, 3], [2, 3, 0, 4, 1]];
+        let no = if quick { 3 } else { orders.len() };
+        let jm: i64 = if quick { 4 } else { 6 };
+        run.stage("integer-bezout-near-collinear", (jm * jm * 9) as usize * no, move |idx, acc| {
+            let (k, oi) = ((idx / no) as i64, idx % no);
+            let (j1, j2, s1, s2) = (1 + k % jm, 1 + (k / jm) % jm, (k / (jm * jm)) % 3, k / (jm * jm * 3));
+            let q = |j: i64, sl: i64| -> IP {
+                let t = (j as i128 * u as i128).div_euclid(a as i128) as i64 - sl;
+                (j * u - t * a, j * v - t * b)
+            };
+            let base = [(0, 0), (3 * a, 3 * b), q(j1, s1), q(j2, s2), (a, 2 * b)]; // the far point is on the other side of the chord: the q points compete only with each other
+            let pts: Vec<IP> = orders[oi].iter().map(|&i| base[i]).collect();
+            let exact = hull(&pts);
+            acc.class(format!("bezout j{} j{} same-slot{} hull{}", j1, j2, s1 == s2, exact.len()));
+            let ci: Vec<Coord<i64>> = pts.iter().map(|&p| Coord { x: p.0, y: p.1 }).collect();
+            let cf: Vec<Coord<f64>> = pts.iter().map(|&p| Coord { x: p.0 as f64, y: p.1 as f64 }).collect();
+            let results: Vec<(&str, Result<Vec<IP>, String>)> = vec![
+                ("quick_hull<i64> (large extent, products fit)", guard(|| ring_of_i(&quick_hull(&mut ci.clone())))),
+                ("graham_hull<i64> (large extent, products fit)", guard(|| ring_of_i(&graham_hull(&mut ci.clone(), false)))),
+                ("MultiPoint::convex_hull<i64> (large extent, products fit)", guard(|| ring_of_i(MultiPoint(ci.iter().map(|&c| Point(c)).collect()).convex_hull().exterior()))),
+                ("graham_hull<f64> (large extent)", guard(|| ring_of_f(&graham_hull(&mut cf.clone(), false)))),
+            ];
+            for (name, r) in results {
+                acc.evals += 1;
+                match r {
+                    Err(p) => acc.viol(format!("{} panic", name), idx, || json!({"points": format!("{:?}", pts), "panic": p})),
+                    Ok(ring) => {
+                        if let Some(msg) = check_ring(name, &ring, true, &pts, &exact) {
+                            acc.viol(msg, idx, || json!({"points": format!("{:?}", pts), "got": format!("{:?}", ring), "exact_hull": format!("{:?}", exact)}));
+                        }
+                    }
+                }
+            }
+        });
+    }
+    // three coordinates forming a very thin but non-degenerate triangle (cross product +-1 .. +-4 with products above 2^53, f32: above 2^24): the hull of a
+    // Triangle, a 3-point MultiPoint, a 3-coordinate LineString and the slice entry points must keep all three (exact orientation)
+    {
+        let w: i64 = if quick { 5 } else { 9 };
+        run.stage("thin-triangle-three-coordinates", (w * w * w * w) as usize * 2, move |idx, acc| {
+            let f32_twin = idx % 2 == 1;
+            let k = (idx / 2) as i64;
+            let big: i64 = if f32_twin { 1 << 12 } else { 1 << 27 };
+            let (p1, p2): (IP, IP) = ((big + k % w, big + (k / w) % w - 1), (2 * big + (k / (w * w)) % w, 2 * big + k / (w * w * w) - 1));
+            let pts: Vec<IP> = vec![(0, 0), p1, p2];
+            let cr = orient_i(pts[0], pts[1], pts[2]);
+            acc.class(format!("thin triangle {} cross{}", if f32_twin { "f32" } else { "f64" }, cr.signum()));
+            let exact = hull(&pts);
+            if exact.len() < 3 {
+                return; // exactly collinear: no hull demanded
+            }
+            macro_rules! go {
+                ($t:ty, $tn:expr) => {{
+                    let c: Vec<Coord<$t>> = pts.iter().map(|&p| Coord { x: p.0 as $t, y: p.1 as $t }).collect();
+                    let ring = |l: &LineString<$t>| -> Vec<IP> { l.0.iter().map(|c| (c.x as i64, c.y as i64)).collect() };
+                    let results: Vec<(String, Result<Vec<IP>, String>)> = vec![
+                        (format!("Triangle::convex_hull<{}> of a thin triangle", $tn), guard(|| ring(geo::Triangle(c[0], c[1], c[2]).convex_hull().exterior()))),
+                        (format!("Triangle(cw)::convex_hull<{}> of a thin triangle", $tn), guard(|| ring(geo::Triangle(c[2], c[1], c[0]).convex_hull().exterior()))),
+                        (format!("MultiPoint::convex_hull<{}> of a thin triangle", $tn), guard(|| ring(MultiPoint(c.iter().map(|&x| Point(x)).collect()).convex_hull().exterior()))),
+                        (format!("LineString::convex_hull<{}> of a thin triangle", $tn), guard(|| ring(LineString::new(c.clone()).convex_hull().exterior()))),
+                        (format!("quick_hull<{}> of a thin triangle", $tn), guard(|| ring(&quick_hull(&mut c.clone())))),
+                        (format!("graham_hull<{}> of a thin triangle", $tn), guard(|| ring(&graham_hull(&mut c.clone(), false)))),
+                    ];
+                    for (name, r) in results {
+                        acc.evals += 1;
+                        match r {
+                            Err(p) => acc.viol(format!("{} panic", name), idx, || json!({"points": format!("{:?}", pts), "panic": p})),
+                            Ok(rg) => {
+                                if let Some(msg) = check_ring(&name, &rg, true, &pts, &exact) {
+                                    acc.viol(msg, idx, || json!({"points": format!("{:?}", pts), "got": format!("{:?}", rg), "exact_cross_product": cr.to_string()}));
+                                }
+                            }
+                        }
+                    }
+                }};
+            }
+            if f32_twin {
+                go!(f32, "f32");
+            } else {
+                go!(f64, "f64");
+            }
+        });
+    }
     // a larger point set with many collinear points: every subset of size 6 and 7 of the 3x3 lattice scaled (order = ascending)
     for k in [6usize, 7] {
         let subs = subsets(&g3, k);
